@@ -70,13 +70,14 @@ Record case := {
   ce : qop; ca : atree; calg : alg; cn : nat; ck : nat;
   clu : list (QM * (list nat * QM * QM)); cchol : list (QM * QM);
   cnum : bool;           (* compare values (false: an oracle result has no exact rational form, e.g. a Cholesky factor with irrational entries) *)
+  cfwd : bool;           (* probed value of the flag inv_psd_alg_forwarded_to_factors *)
   cflag : bool;          (* probed value of the flag inv_gmres_ambiguous *)
   cerr : nat;            (* 0 = the implementation returned; otherwise the code of the exception class *)
   crty : rty;
   cB : QM; cBL : QM;     (* right operand n x k, left operand k x n (exact) *)
   cdense : QM; cres : QM; cresl : QM;  (* inv(A,alg).to_dense(), inv(A,alg) @ B, BL @ inv(A,alg): the implementation's floats *)
   ctol2 : Qc }.
-Definition qinv (c : case) : ires (R:=qi) := inv (cflag c) (lu_tab (clu c)) (chol_tab (cchol c)) (calg c) (ce c) (ca c).
+Definition qinv (c : case) : ires (R:=qi) := inv (cflag c) (cfwd c) (lu_tab (clu c)) (chol_tab (cchol c)) (calg c) (ce c) (ca c).
 Definition qto_op (r : iop (R:=qi)) : qop := to_op (tsolve (R:=qi)) no_iter r.
 Definition check (c : case) : bool :=
   let n := cn c in
